@@ -207,6 +207,26 @@ class Executor(Engine):
         validators (each proved against the validator's source), wired to the fields named in their decorators."""
         c = self.ctx
         bad = []
+        # the class must not have grown other hooks that run at construction (a further validator, __init__, model_post_init ...)
+        cnode = self.repo.classes.get(("api", "Record"))
+        if cnode is None:
+            raise Unsupported("class Record not found")
+        expected = {q.split(".")[-1] for q, _ in self.VALIDATORS}
+        for sub in cnode.body:
+            if isinstance(sub, ast.FunctionDef):
+                decos = " ".join(ast.unparse(d) for d in sub.decorator_list)
+                if ("validator" in decos and sub.name not in expected) or sub.name in ("__init__", "__new__", "model_post_init", "__post_init__"):
+                    raise Unsupported(f"Record.{sub.name} also runs at construction; the constructor rule does not cover it")
+            elif isinstance(sub, (ast.Assign, ast.AnnAssign)):
+                tgt = sub.targets[0] if isinstance(sub, ast.Assign) else sub.target
+                if isinstance(tgt, ast.Name) and tgt.id == "model_config":
+                    raise Unsupported("Record.model_config changes how the model is constructed")
+        order = [sub.target.id for sub in cnode.body if isinstance(sub, ast.AnnAssign) and isinstance(sub.target, ast.Name)]
+        if sorted(order) != sorted(FIELDS["Record"]) or order.index("prefix") > order.index("prefix_synonyms") \
+                or order.index("uri_prefix") > order.index("uri_prefix_synonyms"):
+            raise Unsupported("fields of Record changed (a validator sees only the fields declared before its own)")
+        if [b.id for b in cnode.bases if isinstance(b, ast.Name)] != ["BaseModel"]:
+            raise Unsupported("Record is no longer a plain pydantic BaseModel")
         for q, field in self.VALIDATORS:
             if q not in self.contracts or q not in self.repo.funcs:
                 raise Unsupported(f"no contract / source for the validator {q}")
